@@ -45,8 +45,10 @@ structure Route where
   localPref : Option Nat
   /-- AS_PATH attribute (a `HopPath`) -/
   path : Slot (List Hop)
-  /-- ORIGIN attribute, the number `OriginType` was made from (derived order of
-  `OriginType::from(n)` = numeric order of `n`) -/
+  /-- ORIGIN attribute: its origin number `u8::from(OriginType)`, the only thing `eligible` / `cmp`
+  read of it (step b compares these numbers, path_selection.rs fix F37; before the fix the derived
+  order of the enum was compared, which is the numeric order on `OriginType::from(n)` but ranks a
+  directly written `OriginType::Unimplemented(n)`, n <= 2, above `Incomplete`) -/
   origin : Slot Nat
   med : Option Nat
   localAsn : Nat
@@ -111,7 +113,7 @@ def stepA (a b : Route) : Outcome Ordering :=
   | some p, some q => .ok (compare (hopCount p) (hopCount q))
   | _, _ => .panic
 
-/-- step b (path_selection.rs:305-311). -/
+/-- step b (path_selection.rs:305-318): `u8::from(a.0).cmp(&u8::from(b.0))`. -/
 def stepB (a b : Route) : Ordering :=
   match a.origin.get, b.origin.get with
   | some x, some y => compare x y
